@@ -72,6 +72,10 @@ namespace sqf::runtime
         }
         void push_frame(sqf::runtime::frame frame)
         {
+            if (!m_frames.empty() && !frame.globals_value_scope_explicit())
+            { // Globals resolve in the namespace of the innermost dynamically enclosing with-do
+                frame.globals_value_scope(m_frames.back().globals_value_scope());
+            }
             m_frames.push_back(frame);
             m_frames.back().value_stack_pos(m_values.size());
 #ifdef DF__SQF_RUNTIME__ASSEMBLY_DEBUG_ON_EXECUTE
